@@ -443,3 +443,51 @@ ALPHABETS = {
 }
 MAXLEN = {'isbn': 13, 'ean': 14, 'issn': 8, 'ismn': 13, 'isin': 12, 'iban': 34, 'imei': 16, 'iso11649': 25, 'isni': 16,
           'lei': 20, 'grid': 18, 'cusip': 9, 'gb.sedol': 7, 'figi': 12, 'imo': 7, 'casrn': 12, 'bic': 11, 'isrc': 12, 'bitcoin': 62}
+
+
+# ---------------------------------------------------------------------------
+# human-readable forms: what the standards' own display conventions allow around the electronic form.
+# (separators removed anywhere, optional label in front).  Letter case is folded except for bitcoin.
+
+PRESENTATION = {
+    'isbn': (' -', ()), 'ean': (' -', ()), 'issn': (' -', ()), 'ismn': (' -', ()), 'isin': (' ', ()), 'iban': (' ', ()),
+    'imei': (' -', ()), 'iso11649': (' ', ()), 'isni': (' -', ()), 'lei': (' ', ()), 'grid': (' -', ('GRID:',)),
+    'cusip': (' ', ()), 'gb.sedol': (' ', ()), 'figi': (' ', ()), 'imo': (' ', ('IMO',)), 'casrn': (' ', ()), 'bic': (' ', ()),
+    'isrc': (' -', ()), 'bitcoin': (' ', ()),
+}
+
+
+def ref_clean(name, s):
+    """Electronic form of a human-readable spelling according to the standard's display conventions."""
+    seps, labels = PRESENTATION[name]
+    out = ''.join(c for c in s if c not in seps)
+    if name != 'bitcoin':
+        out = out.upper()
+    elif out[:3].lower() == 'bc1' and (out == out.lower() or out == out.upper()):
+        out = out.lower()
+    for lab in labels:
+        if out.startswith(lab):
+            out = out[len(lab):]
+            break
+    if name == 'casrn' and '-' not in out and len(out) >= 4:
+        out = out[:-3] + '-' + out[-3:-1] + '-' + out[-1]
+    return out
+
+
+def bech32_encode(version, prog5):
+    """A bc1 address with a correct checksum over arbitrary 5-bit data (may violate the other rules)."""
+    data = [version] + list(prog5)
+    hrp = [ord(c) >> 5 for c in 'bc'] + [0] + [ord(c) & 31 for c in 'bc']
+    pm = _bech32_polymod(hrp + data + [0] * 6) ^ 1
+    chk = [(pm >> 5 * (5 - i)) & 31 for i in range(6)]
+    return 'bc1' + ''.join(_B32[v] for v in data + chk)
+
+
+def base58check_encode(payload):
+    raw = payload + hashlib.sha256(hashlib.sha256(payload).digest()).digest()[:4]
+    n = int.from_bytes(raw, 'big')
+    out = ''
+    while n:
+        n, r = divmod(n, 58)
+        out = _B58[r] + out
+    return '1' * (len(raw) - len(raw.lstrip(b'\x00'))) + out
